@@ -284,7 +284,6 @@ structure HsCtx where
   incLen : Nat := 0           -- `incomplete_handshake.len()`
   incSeq : Nat := 0
   transcript : Nat := 0       -- `handshake_messages.len()`
-  hasKeys : Bool := false
   failed : Bool := false      -- `?` left `process_handshake_payload` with an error
 
 /-- a decoded handshake message header: type, total_length, message_seq, fragment_offset, fragment_length (= body length) -/
@@ -329,34 +328,33 @@ def reassemble (c : HsCtx) (m : HsMsg) : Cur HsCtx := do
     pure { c with recvSeq := r.2, transcript := tr }
 
 /-- one decoded message through acceptance, the clear-text-after-keys skip and reassembly -/
-def onMessage (isClient authenticated : Bool) (c : HsCtx) (m : HsMsg) : Cur HsCtx :=
+def onMessage (isClient : Bool) (c : HsCtx) (m : HsMsg) : Cur HsCtx :=
   let a := acceptSeq isClient c.recvSeq c.postHvr m.typ m.seq
   if ¬ a.1 then pure c                                    -- duplicate / out of order: skipped
   else
     let c : HsCtx := { c with recvSeq := a.2.1, postHvr := if a.2.2 then false else c.postHvr }
-    if ¬ authenticated ∧ c.hasKeys then pure c else
     reassemble { c with postHvr := false } m
 
 /-- the message loop over one record payload (decode with `handshakeDecode`, progress as in `handshakeWalk`) -/
-def payloadBody (isClient authenticated : Bool) (c : HsCtx) : Cur (HsCtx ⊕ HsCtx) := do
+def payloadBody (isClient : Bool) (c : HsCtx) : Cur (HsCtx ⊕ HsCtx) := do
   if (← remaining) = 0 then pure (.inr c) else
   let r ← attemptD handshakeDecode []
   if ¬ r.1 then pure (.inr c) else                         -- decode error: `return Ok(())`
   match r.2 with
   | [t, total, seq, fragOff, fragLen, _] =>
-    let c ← onMessage isClient authenticated c ⟨t, total, seq, fragOff, fragLen⟩
+    let c ← onMessage isClient c ⟨t, total, seq, fragOff, fragLen⟩
     if c.failed then pure (.inr c) else pure (.inl c)
   | _ => pure (.inr c)                                    -- `Ok(None)`
 
-def payloadWalk (isClient authenticated : Bool) (c : HsCtx) : Cur HsCtx := do
+def payloadWalk (isClient : Bool) (c : HsCtx) : Cur HsCtx := do
   let fuel := (← remaining) + 1
-  loopM (payloadBody isClient authenticated) fuel { c with failed := false }
+  loopM (payloadBody isClient) fuel { c with failed := false }
 
 /-- a history of record payloads (one per datagram); an error ends only its payload -/
 def payloadHistory (isClient : Bool) : HsCtx → List (List UInt8) → Cur (List HsCtx)
   | _, [] => pure []
   | c, p :: rest => do
-    let r ← onBuf (Buf.ofList p) (payloadWalk isClient false c)
+    let r ← onBuf (Buf.ofList p) (payloadWalk isClient c)
     let more ← payloadHistory isClient r.1 rest
     pure (r.1 :: more)
 
@@ -370,10 +368,10 @@ def datagramBody (isClient : Bool) (c : HsCtx) : Cur (HsCtx ⊕ HsCtx) := do
   match r.2.1 with
   | [ct, _, _, epoch, _, _] =>
     -- epoch 0 never carries application data; an alert must be protected once keys exist
-    if epoch = 0 ∧ (ct = 23 ∨ (ct = 21 ∧ c.hasKeys)) then pure (.inl c) else
+    if epoch = 0 ∧ ct = 23 then pure (.inl c) else
     if epoch ≠ 0 then pure (.inr c) else                  -- `try_decrypt_record` fails without keys: `break`
     if ct = 22 then
-      let p ← onBuf r.2.2 (payloadWalk isClient false c)
+      let p ← onBuf r.2.2 (payloadWalk isClient c)
       if p.1.failed then pure (.inr p.1) else pure (.inl p.1)
     else if ct = 21 then
       -- `if payload.len() >= 2 { let description = payload[1]; … }`
